@@ -909,12 +909,10 @@ def get_charnos(node: ast.AST, source: str, keep_first_indent: bool = False) -> 
 def has_ignore_comment(source: str, rng: Range) -> bool:
     pattern = re.compile(r"#\s*pyrefact\s*:\s*(skip_file|ignore)")
 
-    character_count = 0
-    for line in source.splitlines(keepends=True):
-        line_start = character_count
-        line_end = character_count = line_start + len(line)
-
-        if rng & Range(line_start, line_end) and pattern.search(line):
+    # Same line boundaries as everywhere else: a form feed or \u2028 in a literal does not end a line
+    line_starts = _get_line_start_charnos(source)
+    for line_start, line_end in zip(line_starts, (*line_starts[1:], len(source))):
+        if rng & Range(line_start, line_end) and pattern.search(source[line_start:line_end]):
             return True
 
     return False
